@@ -505,6 +505,12 @@ func (c *Conn) prepareDualStackServerHandshakeStart(ctx context.Context) (handsh
 		flight12: dtlsflight12.Flight0,
 		flight13: dtlsflight13.Flight0,
 		fsmState: dtlshandshake.StatePreparing,
+		// The ClientHello that decided the version is in the handshake cache
+		// already: tell the state machine, or it waits for the client to
+		// repeat it.
+		postSetup: func(ctx context.Context) {
+			c.primeHandshakeRecv(ctx)
+		},
 	}, nil
 }
 
